@@ -49,4 +49,15 @@ CHECKS = {
                  "is judged against the model's merge rules; sessions of 50 calls share one Plenc instance so pools, scratch keys, interning tables and "
                  "registries carry history, and ordinary round trips into fresh variables on such instances must equal the history-free result.",
          "note": TB + " Nil-vs-empty of a re-used slice that ends up empty is left open by the statement and not compared."},
+ "C06": {"technique": "TLA+ state machine PlencSystem (buffers, variables, API calls) model-checked with TLC; generated histories replayed on the real library and validated call by call (TraceSystem)",
+         "text": "TLC checks the action properties AppendOnly / Frame* on PlencSystem; all histories of 3 calls over the catalogue (values that encode to nothing, "
+                 "pointer-shaped by-value shapes, 128+-byte elements), a sweep of every spare capacity 0..460 x prefix, and random 6..12-call histories on two buffers "
+                 "are executed on one Plenc instance with persistent source variables rewritten in place; after every call TLC compares the returned bytes and all "
+                 "live buffers with the specification's step function (one TLC state per call, re-synchronising after a rejection).",
+         "note": TB + " Catalogue maps have a single entry so byte equality is exact."},
+ "C11": {"technique": "frame conditions of the PlencSystem actions validated on replayed histories + direct memory-overlap observation in the harness",
+         "text": "Values are immutable in the specification, so every action changes only its own target; the harness scrambles the marshalled value in place after "
+                 "every Marshal, overwrites input buffers (scribble) after Unmarshal, re-reads every live buffer and variable after every call, and additionally reports "
+                 "whether memory reachable from a decoded value (incl. spare capacity) overlaps the input buffer or the returned bytes overlap the value; TLC judges all of it.",
+         "note": TB + " The overlap observer walks strings, slices (with capacity), pointers, maps and structs through reflect/unsafe; it is an observation on the executions the model drives."},
 }
